@@ -265,17 +265,23 @@ Proof.
     repeat split; try lia. apply forallb_Forall in H0. eapply Forall_impl; [|exact H0]. cbv beta. intros. lia.
 Qed.
 
-Theorem record_marshal_roundtrip : forall r rest, record_ok r = true -> d_record (e_record r ++ rest) = Some (r, rest).
+Definition Precord (r : rrecord) : Prop :=
+  (len (fst r) < M32 /\ Forall (fun f => Prec_field f /\ len (e_rec_field f) < M32) (fst r)) /\
+  (len (snd r) < M32 /\ Forall (fun c => Prec_col c /\ len (e_rec_col c) < M32) (snd r)).
+
+Lemma good_record : good e_record d_record Precord.
 Proof.
-  intros [fs cs] rest H. unfold record_ok in H. cbn [fst snd] in H.
+  pose proof (good_pair _ _ _ _ _ _ (good_list 4 _ _ _ (good_sized _ _ _ good_rec_field))
+                                      (good_list 4 _ _ _ (good_sized _ _ _ good_rec_col))) as G.
+  rewrite pow256_4 in G. exact G.
+Qed.
+
+Lemma record_ok_P : forall r, record_ok r = true -> Precord r.
+Proof.
+  intros [fs cs] H. unfold record_ok in H. cbn [fst snd] in H.
   apply andb_true_iff in H. destruct H as [H H0]. apply andb_true_iff in H. destruct H as [H H1].
   apply andb_true_iff in H. destruct H as [H HC]. apply andb_true_iff in H. destruct H as [HA H2].
-  assert (G : good e_record d_record (fun r => (len (fst r) < M32 /\ Forall (fun f => Prec_field f /\ len (e_rec_field f) < M32) (fst r)) /\
-                                               (len (snd r) < M32 /\ Forall (fun c => Prec_col c /\ len (e_rec_col c) < M32) (snd r)))).
-  { pose proof (good_pair _ _ _ _ _ _ (good_list 4 _ _ _ (good_sized _ _ _ good_rec_field))
-                                        (good_list 4 _ _ _ (good_sized _ _ _ good_rec_col))) as G.
-    rewrite pow256_4 in G. exact G. }
-  destruct G as [R _]. apply R. cbn [fst snd].
+  unfold Precord. cbn [fst snd].
   apply forallb_Forall in H2. apply forallb_Forall in H0. apply forallb_Forall in H1.
   repeat split; try lia.
   - eapply Forall_impl; [|exact H2]. cbv beta. intros [n t] Hf. split; [exact Hf|].
@@ -283,3 +289,11 @@ Proof.
     unfold Prec_field, rec_field_ok, len in Hf. cbn [fst snd] in Hf. unfold M32. lia.
   - rewrite Forall_forall in *. intros c Hc. split; [apply H1; exact Hc|]. specialize (H0 c Hc). cbv beta in H0. lia.
 Qed.
+
+Theorem record_marshal_roundtrip : forall r rest, record_ok r = true -> d_record (e_record r ++ rest) = Some (r, rest).
+Proof. intros r rest H. destruct good_record as [R _]. apply R. apply record_ok_P. exact H. Qed.
+
+(* every strict prefix of a marshalled record is rejected by the model decoder *)
+Theorem record_prefix_rejected : forall r k, record_ok r = true -> (k < length (e_record r))%nat ->
+  d_record (firstn k (e_record r)) = None.
+Proof. intros r k H Hk. destruct good_record as [_ Q]. apply Q; [apply record_ok_P; exact H|exact Hk]. Qed.
